@@ -20,13 +20,14 @@ def setup():
     return 0
 
 
-def determinism(seed, n=48, verbose=True):
+def determinism(seed, n=None, verbose=True):
     """Each scenario twice per configuration: different workers, worker counts 4 and 16,
     PYTHONHASHSEED 0 and 12345 in fresh interpreters; full event traces compared by digest."""
     import importlib
 
     from sim import driver
 
+    n = n or int(os.environ.get("VERIF_DET_N") or 48)
     plans = []
     for prop in ("C13", "C14", "C16", "C19", "C20"):
         try:
